@@ -1,6 +1,6 @@
 (* C11 - Every (instance, signal attribute) pair is an independent channel. *)
 From Coq Require Import List Bool Arith.
-From Asphalt Require Import Ev.SigModel Ev.SigProofs.
+From Asphalt Require Import Ev.SigModel Ev.SigProofs Gen.Gen_signal.
 Import ListNotations.
 
 (* accessing the attribute on the instance yields the same bound signal at every later point of
@@ -39,3 +39,12 @@ Print Assumptions C11_typecheck.
 Theorem C11_unbound : forall s a h, sstep s (ClassUse a h) = (s, OUnbound).
 Proof. exact class_use_unbound. Qed.
 Print Assumptions C11_unbound.
+
+(* the key of the table of bound signals as read from Signal.__get__ on this run -- the model's table is
+   keyed the same way: (identity of the instance, attribute name); the instance only weakly referenced and
+   the entry dropped with it *)
+Theorem C11_table_in_source :
+  sig_key_by_identity = true /\ sig_key_includes_topic = true /\
+  sig_owner_weakly_referenced = true /\ sig_entry_dropped_with_owner = true.
+Proof. exact signal_table_source_shape. Qed.
+Print Assumptions C11_table_in_source.
